@@ -1,11 +1,23 @@
 (* CorrC37.v — correspondence entry point for C37: one history replayed by the model of the
-   mode it was run in (two cases per generated history: on-disk run, in-memory run). *)
-From Verif Require Import Bytes Keys Consts Spec Lsm Compact Iter Sys SysMode Corr.
+   mode it was run in (two cases per generated history: on-disk run, in-memory run).
+   `Vol`: a volume history (more data than one memtable holds) replayed by B/MemRoom.v: the
+   model decides from its own byte counters where ensureRoomForWrite rotates the memtable and
+   is compared with what the implementation did at every commit. *)
+From Verif Require Import Bytes Keys Consts Spec Lsm Compact Iter Sys SysMode MemRoom Corr.
 From Verif Require CorrSys.
 Open Scope N_scope.
 
 Inductive case :=
-| HistM (inmem : bool) (thr : N) (managed detect : bool) (nkeep nlevels next : N) (ops : list xop).
+| HistM (inmem : bool) (thr : N) (managed detect : bool) (nkeep nlevels next : N) (ops : list xop)
+(* consts = (skl.MaxNodeSize, maxBatchSize, maxBatchCount, arenaSize(opt)) as reported by the
+   implementation; died = the process running the history exited before the history ended *)
+| Vol (inmem : bool) (thr mts : N) (managed detect : bool) (nkeep nlevels next : N)
+      (consts : N * N * N * N) (died : bool) (ops : list vop).
+
+(* values of volume histories are written run-length compressed: hr "prefix" byte n =
+   hx "prefix" followed by n times byte *)
+From Coq Require Import String.
+Definition hr (s : string) (b n : N) : bytes := (hx s ++ repeat b (N.to_nat n))%list.
 
 Definition xop_tags (c : mcfg) (o : xop) : list N :=
   match o with
@@ -18,8 +30,57 @@ Definition xop_tags (c : mcfg) (o : xop) : list N :=
   | Files s m v => [if mc_inmem c then 0 else 211; (match s with [] => 0 | _ => 212 end)]
   end.
 
+(* tags of a VCommit label, computed in its pre-state: 300 no rotation, 301 rotation because the
+   skiplist is full, 302 rotation because only the WAL is full, 303 a key@version that is
+   already in the memtable (setValue), 304 nothing to write, 305 a value pointer is stored *)
+Definition vop_tags (c : rcfg) (r : room) (o : vop) : list N :=
+  match o with
+  | VX (Base (Flush _)) => [match l_mt (s_db (m_sys (r_m r))) with [] => 0 | _ => 306 end]
+  | VX DropAll => [210; 307]
+  | VX o' => xop_tags (rc_m c) o'
+  | VCommit t cts res rot hs _ _ =>
+      let s := m_sys (r_m r) in
+      let es := commit_applies s t cts in
+      match es with
+      | [] => [304; if res =? 0 then 40 else 41]
+      | _ =>
+        [if is_full c (r_sl r) (r_wal r) then (if rc_mts c <=? r_sl r then 301 else 302) else 300;
+         (match rot with
+          | None => if existsb (mt_has (l_mt (s_db s))) es then 303 else 0
+          | Some _ => 0 end);
+         if existsb (is_vlog (rc_m c)) es then 305 else 0; 40]
+      end
+  end.
+
+Fixpoint vtags (c : rcfg) (r : room) (ops : list vop) (acc : list N) : list N :=
+  match ops with
+  | [] => acc
+  | o :: rest =>
+      let acc' := CorrSys.dedup (vop_tags c r o) acc in
+      match vstep c r o with
+      | VOk r' => vtags c r' rest acc'
+      | _ => acc'
+      end
+  end.
+
 Definition run_case (c : case) : bool * list N :=
   match c with
+  | Vol inmem thr mts managed detect nkeep nlevels next consts died ops =>
+      let cf := mkRC (mkMC inmem thr) mts in
+      let r0 := init_room cf managed detect nkeep (N.to_nat nlevels) next in
+      let '(mns, mbs, mbc, asz) := consts in
+      if negb ((mns =? c_maxNodeSize) && (mbs =? max_batch_size mts) && (mbc =? max_batch_count mts)
+               && (asz =? arena_size mts)) then (false, [100000 + 57])
+      else
+      let '(bad, r) := vexec cf r0 ops 0 in
+      match bad with
+      | None =>
+          if died then (false, [100000 + 997])      (* the implementation died; the model goes on *)
+          else
+          let ev_ok := if inmem then (match m_ev (r_m r) with [] => true | _ => false end) else true in
+          (ev_ok, CorrSys.dedup ((if inmem then 201 else 200) :: 310 + N.min (r_rot r) 3 :: vtags cf r0 ops []) [])
+      | Some (i, code) => (false, [1000 + i; 100000 + code])
+      end
   | HistM inmem thr managed detect nkeep nlevels next ops =>
       let cf := mkMC inmem thr in
       let '(bad, m) := mexec cf (init_msys cf managed detect nkeep (N.to_nat nlevels) next) ops 0 in
